@@ -1351,10 +1351,12 @@ class ContactHandler(Messenger, dbus.service.Object):
             self._segment_last_ack_len = length
 
             rx_time = datetime.datetime.now(datetime.timezone.utc)
-            tx_time = self._segment_tx_times.pop(length)
-            delta_t = (rx_time - tx_time).total_seconds()
-
-            self._modulate_tx_seg_size(delta_b, delta_t)
+            # nothing is recorded for an acknowledgement of something not sent
+            tx_time = self._segment_tx_times.pop((transfer_id, length), None)
+            if tx_time is not None:
+                delta_t = (rx_time - tx_time).total_seconds()
+                if delta_t > 0:
+                    self._modulate_tx_seg_size(delta_b, delta_t)
 
         item = self._tx_map.get(transfer_id)
         if item is None:
@@ -1604,7 +1606,7 @@ class ContactHandler(Messenger, dbus.service.Object):
         # Actual segment
         self.send_xfer_data(self._tx_tmp.transfer_id, data, flg, ext_items)
         # Mark the transmit time
-        self._segment_tx_times[self._tx_length] = datetime.datetime.now(datetime.timezone.utc)
+        self._segment_tx_times[(self._tx_tmp.transfer_id, self._tx_length)] = datetime.datetime.now(datetime.timezone.utc)
 
         if flg & messages.TransferSegment.Flag.END:
             if not self._do_send_ack_final:
